@@ -81,6 +81,20 @@ static unsigned long scenario(int sc, config_t *cfg)
       config_set_option(cfg, CONFIG_OPTION_ALLOW_OVERRIDES, 1);
       config_read_string(cfg, "a = 1; a = \"two\"; b = (1, (2, (3))); b = 4;");
       break; }
+    case 6:
+      /* removals across the chunk boundaries of the child vectors (49 -> 0 children: 48, 33, 32, 17, 16, 1), by name,
+       * by index, from the front and from the back; every remaining API family once more on the shrunken tree */
+      r = config_root_setting(cfg);
+      g = config_setting_add(r, "g", CONFIG_TYPE_GROUP);
+      for (i = 0; i < 49; i++) { snprintf(name, sizeof name, "m%d", i); config_setting_add(g, name, CONFIG_TYPE_INT); }
+      a = config_setting_add(r, "lst", CONFIG_TYPE_LIST);
+      for (i = 0; i < 34; i++) config_setting_set_int_elem(a, -1, i);
+      for (i = 48; i >= 20; i--) { snprintf(name, sizeof name, "m%d", i); config_setting_remove(g, name); }
+      for (i = 0; i < 20; i++) config_setting_remove_elem(g, 0);
+      for (i = 0; i < 34; i++) config_setting_remove_elem(a, (unsigned)(i % 2 ? 0 : config_setting_length(a) - 1));
+      config_setting_set_int_elem(a, -1, 7); config_setting_add(g, "again", CONFIG_TYPE_STRING);
+      config_setting_remove(r, "lst"); config_setting_remove(r, "g");
+      break;
   }
   in_lib = 0;
   if (config_include_dir_check(cfg)) h = h * 3 + 1;
@@ -99,7 +113,7 @@ int main(int argc, char **argv)
   config_set_fatal_error_func(fatal);
   while ((n = getline(&line, &cap, stdin)) > 0) {
     int sc; long k;
-    if (sscanf(line, "allocdouble %d %ld", &sc, &k) == 2 && sc >= 0 && sc <= 5) {
+    if (sscanf(line, "allocdouble %d %ld", &sc, &k) == 2 && sc >= 0 && sc <= 6) {
       /* two allocation failures in ONE process with a handler that does not return: both must reach the handler */
       pid_t pid; int st;
       fflush(stdout);
@@ -120,7 +134,7 @@ int main(int argc, char **argv)
       fflush(stdout);
       continue;
     }
-    if (sscanf(line, "alloccase %d %ld", &sc, &k) != 2 || sc < 0 || sc > 5) { printf("bad-op\n"); fflush(stdout); continue; }
+    if (sscanf(line, "alloccase %d %ld", &sc, &k) != 2 || sc < 0 || sc > 6) { printf("bad-op\n"); fflush(stdout); continue; }
     if (k < 0) {
       config_t cfg; counter = 0; fail_at = -1;
       base[sc] = scenario(sc, &cfg); counts[sc] = counter; have[sc] = 1; config_destroy(&cfg);
